@@ -45,6 +45,10 @@ def fans(shape):
     return shape[1] * rf, shape[0] * rf
 
 
+def tier_quick(st):
+    return st.knobs.get("tier", "quick") == "quick"
+
+
 class InitSim(Sim):
     PROP = "C15"
     NAME = "initsim"
@@ -54,14 +58,14 @@ class InitSim(Sim):
     PROBES = ["stub_hit_uniform", "stub_hit_normal", "real_rng_large_sample", "rank1_plain_filler", "rank_lt2_refused", "fan_out_mode",
               "leaky_relu_slope", "layer_linear", "layer_conv1d", "layer_conv2d", "float64", "requires_grad_kept", "rank3", "rank4", "gain_not_one", "non_contiguous_tensor", "initialiser_inside_no_grad",
               "earlier_tensor_updated_in_place", "earlier_tensor_initialised_again", "initialiser_interrupted_then_reissued", "initialiser_call_refused_then_reissued",
-              "weight_replaced_then_reset_parameters"]
+              "weight_replaced_then_reset_parameters", "tensor_above_2_20_elements"]
     RULE = ("one run = 3-10 initialiser / layer-constructor calls with seeded configurations (shape rank 1-4, gain, mode, nonlinearity, slope, "
             "dtype, requires_grad), each under the stub stream or the real seeded generator; distinct = initialiser x rank x mode x nonlinearity "
             "x dtype x stream; non-trivial = a random initialiser ran on a tensor of rank >= 2")
     STUB = Sim.STUB + ["np.random uniform/normal entry points replaced by a known stream in stub runs (real seeded generator in the others)"]
 
     def knobs(self, rng, tier):
-        return {"max_events": rng.randint(3, 16), "np_seed": rng.randrange(2 ** 31)}
+        return {"max_events": rng.randint(3, 16), "np_seed": rng.randrange(2 ** 31), "tier": tier}
 
     def start(self, knobs):
         st = RunState(knobs)
@@ -122,6 +126,10 @@ class InitSim(Sim):
                      4: [rng.randint(10, 20), rng.randint(10, 20), rng.randint(10, 15), rng.randint(10, 15)]}[rank]
         else:
             shape = [rng.randint(1, 6) for _ in range(rank)]
+        if rng.random() < (0.003 if tier_quick(st) else 0.012):
+            # rarely a tensor of more than 2^20 (2^22) elements, not a multiple of a power of two: block-wise / chunked fill paths
+            shape = rng.choice([[1100, 1000], [1500, 1000], [3, 700, 600], [1048583]] + ([] if tier_quick(st) else [[2100, 2000]]))
+            rank = len(shape)
         args = self._gen_args(rng, fn)
         return {"k": "init", "fn": fn, "shape": shape, "f64": rng.random() < 0.4, "rg": rng.random() < 0.5, "args": args, "how": how,
                 "layout": rng.choice(["C", "C", "C", "F", "transposed", "strided"]) if rank >= 2 else rng.choice(["C", "C", "strided"]),
@@ -299,6 +307,8 @@ class InitSim(Sim):
             t = SG.Tensor(base, requires_grad=ev["rg"])
         if layout != "C":
             st.probes["non_contiguous_tensor"] += 1
+        if t.data.size > 2 ** 20:
+            st.probes["tensor_above_2_20_elements"] += 1
         self._run_init(st, ev, t, shape, dtype, None)
         if t.data.size <= 4096 and len(st.kept) < 6:
             st.kept.append([t, t.data.tobytes(), bool(ev["rg"])])
